@@ -14,6 +14,7 @@ RULE = ("(a) seeded canonical (auto-evaluated) trees over library symbols (ints 
         "tighter than unary minus, * / left-associative, call syntax, sqrt, lists) and evaluated at 3 random points with the "
         "same mpmath semantics as the original; symbols must appear under their display names. non-trivial = rendering contains "
         "an operator; distinct = distinct rendering.")
+RULE = RULE + " Also (a') source-form-style trees (generator under evaluate(False), factor_terms/together results), (a'') product chains with several numeric literals; library functions (some named like SymPy special functions) and irrational constants among the leaves; every symbol and function the value depends on must occur in the rendering under its display name."
 ASSUMPTIONS = ["vf/parse_code.py grammar = 'ordinary arithmetic precedence' of the statement",
                "undefined functions/derivatives/integrals/sums are compared through identical opaque smooth stand-ins on both sides",
                "tolerance 1e-10 relative (floats are printed with 15 digits)"]
